@@ -1,6 +1,7 @@
 package cache
 
 import (
+	"io"
 	"io/ioutil"
 	"os"
 	"path/filepath"
@@ -37,9 +38,47 @@ func (f filebufferWithSize) Sync() error {
 }
 
 func (f filebufferWithSize) Truncate(size int64) error {
+	if size < 0 {
+		return os.ErrInvalid
+	}
+
+	// `bytes.Buffer.Truncate` can only shrink; grow with zeros like `os.File.Truncate` does
+	if grow := int(size) - f.Buff.Len(); grow > 0 {
+		_, err := f.Buff.Write(make([]byte, grow))
+
+		return err
+	}
+
 	f.Buff.Truncate(int(size))
 
 	return nil
+}
+
+// Write writes at the current position like a file does. `filebuffer.Buffer.Write` can only
+// append: it drops (and corrupts) everything behind the position when writing in the middle
+// and panics when the position is beyond the end.
+func (f filebufferWithSize) Write(p []byte) (n int, err error) {
+	// Let the buffer report that it is closed
+	if _, err := f.Buffer.Seek(0, io.SeekCurrent); err != nil {
+		return 0, err
+	}
+
+	// Like `write(2)`, writing nothing changes nothing, not even behind the end
+	if len(p) == 0 {
+		return 0, nil
+	}
+
+	end := f.Index + int64(len(p))
+	if grow := end - int64(f.Buff.Len()); grow > 0 {
+		if _, err := f.Buff.Write(make([]byte, grow)); err != nil {
+			return 0, err
+		}
+	}
+
+	n = copy(f.Buff.Bytes()[f.Index:end], p)
+	f.Index += int64(n)
+
+	return n, nil
 }
 
 func NewCacheWrite(
